@@ -27,14 +27,14 @@ func init() { core.Register(c09{}) }
 func (c09) ID() string    { return "C09" }
 func (c09) Level() string { return "exploration" }
 func (c09) Rule() string {
-	return "cases = (index type, I/O type, DataFileSize 16..64 KiB, 4..16 client goroutines, seed): every client runs a seed-determined stream over Put, Get, Delete (a handful of shared keys), ListKeys, Fold, NewIterator+walk+Close (forward/reverse/prefix), Stat, Sync, batches (NewBatch..Commit inside one goroutine, with Batch.Get; and ONE Batch object shared with 2..4 helper goroutines that Get unstaged keys, Put and Delete on it while the owner stages and commits; in half of these the keys are private to the client, helpers race Delete and Put of the same key, and after they have all returned the owner puts a final value and commits - each key must then hold it) and Merge, in a harness built with -race (which implies checkptr); a stateless hook handler yields/sleeps at the engine's hook points to widen windows; the harness itself shares no per-call synchronisation between clients (per-client logs, merged after Wait) so that it adds no happens-before edges that would hide engine races. Violations: a race-detector report with an engine frame (reports are de-duplicated by the pair of innermost engine functions), a panic recovered around any call, a fatal runtime error (worker death), an internal-inconsistency error (ErrIndexUpdateFailed, ErrDataFileNotFound, ErrInvalidCRC, io.EOF, ErrClosed, ErrIncompleteTail) from an individually valid call, a value returned by Get/Fold/iterator that no client wrote for that key, nil or unsorted keys from ListKeys, and a deadlock: no call completes for 30 s AND two goroutine dumps 10 s apart show every client goroutine parked in the same sync.(RW)Mutex acquisition inside engine frames; a stall without that signature is inconclusive. Non-trivial: run in which >=8 of the 12 call kinds overlapped in time with a Put and >=1 rotation happened; distinct = (config, clients, seed)"
+	return "cases = (index type, I/O type, DataFileSize 16..64 KiB, 4..16 client goroutines, seed): every client runs a seed-determined stream over Put, Get, Delete (a handful of shared keys), ListKeys, Fold, NewIterator+walk+Close (forward/reverse/prefix), Stat, Sync, batches (NewBatch..Commit inside one goroutine, with Batch.Get; and ONE Batch object shared with 2..4 helper goroutines that Get unstaged keys, Put and Delete on it while the owner stages and commits; in half of these the keys are private to the client, helpers race Delete and Put of the same key, and after they have all returned the owner puts a final value and commits - each key must then hold it) and Merge, in a harness built with -race (which implies checkptr); a second, unrelated database in another directory of the same process is opened, read, written, merged and closed in a loop meanwhile; a stateless hook handler yields/sleeps at the engine's hook points to widen windows; the harness itself shares no per-call synchronisation between clients (per-client logs, merged after Wait) so that it adds no happens-before edges that would hide engine races. Violations: a race-detector report with an engine frame (reports are de-duplicated by the pair of innermost engine functions), a panic recovered around any call, a fatal runtime error (worker death), an internal-inconsistency error (ErrIndexUpdateFailed, ErrDataFileNotFound, ErrInvalidCRC, io.EOF, ErrClosed, ErrIncompleteTail) from an individually valid call, a value returned by Get/Fold/iterator that no client wrote for that key, nil or unsorted keys from ListKeys, and a deadlock: no call completes for 30 s AND two goroutine dumps 10 s apart show every client goroutine parked in the same sync.(RW)Mutex acquisition inside engine frames; a stall without that signature is inconclusive. Non-trivial: run in which >=8 of the 12 call kinds overlapped in time with a Put and >=1 rotation happened; distinct = (config, clients, seed)"
 }
 func (c09) Assumptions() []string {
 	return []string{"the race detector reports races only on executed paths and keeps a bounded access history; a clean run is not race freedom",
 		"Close/Backup racing with other calls and the timer-driven background merge are outside the statement's list", "ErrMergeIsProgress and ErrMergeOutputOverflow are legitimate Merge results"}
 }
 func (c09) Required() []string {
-	return []string{"calls", "calls_put", "calls_listkeys", "calls_fold", "calls_iter", "calls_batch", "calls_batchget", "shared_batch_calls", "calls_merge", "overlap_pairs", "rotations"}
+	return []string{"calls", "calls_put", "calls_listkeys", "calls_fold", "calls_iter", "calls_batch", "calls_batchget", "shared_batch_calls", "calls_merge", "overlap_pairs", "rotations", "neighbour_database_generations"}
 }
 func (c09) CaseBudget(string) time.Duration { return 300 * time.Second }
 
@@ -164,6 +164,59 @@ func (c09) Run(c core.Case, w *core.Worker) core.Result {
 		wg.Add(1)
 		go c09ClientLoop(clients[i], db, keys, core.NewRng(core.Mix(c.Seed, uint64(i))), cc.Calls, base, &wg)
 	}
+	// a NEIGHBOUR: a second, unrelated database in another directory of the same process is
+	// opened, written, merged and closed in a loop while the clients run (two instances
+	// share nothing but the package: whatever they do share must be synchronised)
+	nbStop, nbDone := make(chan struct{}), make(chan struct{})
+	var nbViol string
+	var nbRounds int
+	go func() {
+		defer close(nbDone)
+		ndir := w.Dir("neighbour")
+		ncfg := cc.Cfg
+		ncfg.DataFileSize = 64 << 10
+		for gen := 0; ; gen++ {
+			select {
+			case <-nbStop:
+				return
+			default:
+			}
+			pv, _ := core.Safe(func() {
+				nd, err := kv.Open(ncfg.Options(ndir))
+				if err != nil {
+					nbViol = fmt.Sprintf("generation %d of a second database in the same process: Open of its cleanly closed directory failed: %v", gen, err)
+					return
+				}
+				for i := 0; i < 40; i++ {
+					k := []byte(fmt.Sprintf("n%02d", i))
+					want := append(append([]byte{}, k...), fmt.Sprintf(":%d:", gen-1)...)
+					if gen > 0 {
+						if v, err := nd.Get(k); err != nil || !bytes.HasPrefix(v, want) {
+							nbViol = fmt.Sprintf("generation %d of a second database in the same process: Get(%s) = %q err=%v, expected the value of the previous generation", gen, k, v[:min(len(v), 12)], err)
+						}
+					}
+					v := append(append([]byte{}, k...), fmt.Sprintf(":%d:", gen)...)
+					for len(v) < 1800 {
+						v = append(v, 'n')
+					}
+					nd.Put(k, v)
+				}
+				if gen%3 == 2 {
+					nd.Merge()
+				}
+				if err := nd.Close(); err != nil {
+					nbViol = "Close of the second database failed: " + err.Error()
+				}
+			})
+			if pv != nil {
+				nbViol = fmt.Sprintf("the second database in the same process panicked: %v", pv)
+			}
+			nbRounds++
+			if nbViol != "" {
+				return
+			}
+		}
+	}()
 	done := make(chan struct{})
 	go func() { wg.Wait(); close(done) }()
 	// progress watchdog / deadlock criterion
@@ -208,6 +261,14 @@ loop:
 				res.Note = "no progress for 40 s without the deadlock signature"
 			}
 			break loop
+		}
+	}
+	close(nbStop)
+	if verdict == "" {
+		<-nbDone
+		res.Add("neighbour_database_generations", int64(nbRounds))
+		if nbViol != "" {
+			res.Violate(nbViol, map[string]string{"class": "neighbour-instance", "index": fmt.Sprint(cc.Cfg.IndexType), "io": fmt.Sprint(cc.Cfg.FileIO)}, nil)
 		}
 	}
 	// collect
